@@ -22,6 +22,7 @@ LEVEL_TEXT = ("All five classes, every compound entry point (update(list), updat
 LEVEL_NOTE = "the window enumeration of add_ngram is computed by the harness (vmon.refs.hll_ref.windows), not by the code under test"
 BUDGET = {"quick": 60, "thorough": 300}
 SHARDS = {"quick": 1, "thorough": 16}
+BOUNDSCHECK = True
 
 
 def gen_cfg(rng):
